@@ -52,7 +52,7 @@ import nfc.tag.tt2_nxp
 import nfc.tag.tt3_sony
 from vlib import ref_felica as ref
 from vlib import linesched, simfelica, simntag, tagdev, vsched
-from vlib.engine import HarnessError, Leg, Violation, innermost, unexpected
+from vlib.engine import HarnessError, Leg, Violation, innermost, unexpected, twin_env
 
 PROPERTY = "C20"
 LEVEL = "exploration"
@@ -2221,4 +2221,16 @@ LEGS = [
              "and alone the first outcome is the key-holding oracle's. "
              "Non-trivial = at least one switch happened while both readers "
              "were at work."),
+]
+
+# the same searches with every logger enabled down to the lowest level (code
+# that only runs, or only evaluates its arguments, when logging is on)
+_byl = dict((lg.name, lg) for lg in LEGS)
+LEGS += [
+    twin_env(_byl["felica_auth"], "log", {"VERIF_LOG": "debug"}, quick=300,
+             thorough=3000, shards_quick=4),
+    twin_env(_byl["read_mac"], "log", {"VERIF_LOG": "debug"}, quick=200,
+             thorough=2000, shards_quick=4),
+    twin_env(_byl["ntag_auth"], "log", {"VERIF_LOG": "debug"}, quick=200,
+             thorough=2000, shards_quick=2),
 ]
